@@ -135,6 +135,34 @@ def run(ck):
                                   "replay_case": {"generated": "props.C01.d21_rule()", "sw": [0, sw]}})
                     direct_failed.add(-21)
     evals += 1
+    # compiled-size limits of the regex crate (not modelled): regexes that compile one by one, written as
+    # separate entries / identifiers of one field, which shake merges into a set that does not (D36,
+    # repaired) -- crate only: optimise and matches must not panic and must keep the verdict
+    big_cases = []
+    for n in (60000, 80000, 100000):
+        a, b = "?[a-z]{%d}x" % n, "?[a-z]{%d}y" % n
+        for det in ({"A": [{"f": a}, {"f": b}], "condition": "A"}, {"A": {"f": a}, "B": {"f": b}, "C": {"g": "x"}, "condition": "A or B or C"},
+                    {"A": [{"f": "i" + a}, {"f": "i" + b}, {"f": "?foo"}], "condition": "not A"},
+                    {"A": [{"n": {"f": a}}, {"n": {"f": b}}], "condition": "A"}):
+            big_cases.append({"k": "rule", "id": ck.new_id(), "rule": rule_text(det),
+                              "docs": [D({"f": "x"}), D({"f": "foo"}), D({"g": "x"}), D({"n": {"f": "y"}}), D({})], "sw": [0, 2, 3, 7, 15]})
+    bout = lib.run_harness_only(big_cases, "C03big")
+    for c in big_cases:
+        evals += 1
+        r = rulebase.parse_rule_line(bout[c["id"]])
+        ck.count("oversized_regex_set:load_" + str(r["load"]))
+        if r["load"] != "ok":
+            continue
+        base = r["res"].get(0, "")
+        for sw in (2, 3, 7, 15):
+            res = r["res"].get(sw, "")
+            if res == "x" or "p" in res or [i for i, (p, q) in enumerate(zip(base, res)) if (p == "t") != (q == "t")]:
+                if len(direct_failed) < 4:
+                    ck.violation({"property": "C03", "kind": "direct",
+                                  "what": "optimise() or matches() panics (or the verdict changes) when shake merges regexes whose set exceeds the regex crate's size limit",
+                                  "rule": c["rule"][:300], "switch_set": sw, "unoptimised": base, "optimised": res,
+                                  "replay_case": dict(c, sw=[0, sw])})
+                direct_failed.add(c["id"])
     ck.coverage["evaluations"] = evals
     ck.coverage["distinct_nontrivial"] = len(nontrivial)
     ck.coverage["rule"] = (
